@@ -270,6 +270,7 @@ class Layout:
         self.tif = tif
         self.trailer_len = (2 if rec_num else 0) + (2 if file_num is not None else 0) + (2 if checksum else 0)
         self.capacity = pr_len - 4 - self.trailer_len
+        self.pad_modulo = 0          # 2 or 4: null bytes after a physical record up to that file position modulus (LIS-79 2.3.1.1)
         if self.capacity < 1 or pr_len > 65535:
             raise ValueError('bad physical record length %d' % pr_len)
 
@@ -314,9 +315,12 @@ def frame_records(lrs, layout):
         fmt = '<3L' if tif == 'le' else '>3L'
         pos = []
         p = 0
+        pm = getattr(layout, 'pad_modulo', 0)
         for _, b in prs:
             pos.append(p)
             p += 12 + len(b)
+            if pm and p % pm:
+                p += pm - p % pm
         eof = p
         first_next = pos[1] if len(pos) > 1 else eof
         if tif == 'be' and int.from_bytes(first_next.to_bytes(4, 'big'), 'little') <= 0xFFFF + 12:
@@ -327,14 +331,18 @@ def frame_records(lrs, layout):
             nxt = pos[k + 1] if k + 1 < len(prs) else eof
             start = len(out)
             out += struct.pack(fmt, 0, back, nxt) + b
+            out += b'\x00' * (nxt - len(out))        # padding, if any
             info.append({'lr': i, 'start': start, 'end': len(out)})
             extents[i] = (extents[i][0] if extents[i] else start, len(out))
         out += struct.pack(fmt, 1, pos[-1] if pos else 0, eof + 12)
         out += struct.pack(fmt, 1, eof, eof + 24)
     else:
+        pm = getattr(layout, 'pad_modulo', 0)
         for i, b in prs:
             start = len(out)
             out += b
+            if pm and len(out) % pm:
+                out += b'\x00' * (pm - len(out) % pm)
             info.append({'lr': i, 'start': start, 'end': len(out)})
             extents[i] = (extents[i][0] if extents[i] else start, len(out))
     return bytes(out), extents, info
@@ -654,6 +662,11 @@ def build_logpass_records(rng, lp):
         ebs.append((15, 66, bytes([lp.x_rc])))
     elif opt(0.3):
         ebs.append((13, 66, b'\x00'))
+        if opt(0.5):
+            # writers that emit every entry block: depth units and a depth representation code that mean nothing when the depth is
+            # recorded in every frame (mode 0) - here a code other than that of the X channel
+            ebs.append((14, 65, lp.channels[0].units if lp.channels else b'FEET'))
+            ebs.append((15, 66, bytes([rng.choice([c for c in (73, 68, 79, 66) if not lp.channels or c != lp.channels[0].rc])])))
     if opt(0.3):
         ebs.append((16, 66, b'\x00'))
     if opt(0.5):
